@@ -26,11 +26,21 @@ FAMILY = "xslt"
 # known-finding classes (props/C01.findings.txt): decided by the reference run (flags) or statically
 FLAG_CLASS = {
     "initial_position": "K-C01-2",
+    "global_position": "K-C01-2",
     "attr_after_empty_text": "K-C01-3",
     "ns_in_rtf": "K-C01-4",
     "global_rtf_built_in_text_only_context": "K-C01-5",
     "ns_attr_copied_alone": "C14/KN9",   # recorded under property C14, not re-filed here
     "ns_attr_replaced": "C14/K17",      # recorded under property C14, not re-filed here
+}
+# a class stops excusing a disagreement as soon as the source has the repair (facts of translator/gen_xslt.py),
+# whether or not the finding is still listed
+REPAIR_FACTS = {
+    "initial_position": ("initial_template_has_root_node_list",),
+    "global_position": ("lazy_global_has_own_node_list",),
+    "attr_after_empty_text": ("copy_of_skips_empty_string", "value_of_dot_skips_empty_string"),
+    "global_rtf_built_in_text_only_context": ("lazy_global_resets_copy_text_nodes_only",),
+    "#with-param-name-equals-global-name": ("params_reset_when_template_frame_popped",),
 }
 FOREIGN = {"C14/KN9": "KN9 (property C14): a copied attribute node in a namespace keeps its prefix and nothing declares it on the new parent",
            "C14/K17": "K17 (property C14): two attributes with the same expanded name in a namespace are not recognised as duplicates (replacement is decided on the qualified name string)"}
@@ -204,6 +214,7 @@ def features(sheet):
 class Runner:
     def __init__(self, ctx, model):
         self.ctx, self.model = ctx, model
+        self.facts = {}
         self.listed = set(k["key"] for k in ctx.known.for_property("C01"))
         self.foreign_listed = set("%s/%s" % (f["property"], f["key"]) for f in ctx.known.findings)
         self.seen = set()
@@ -232,11 +243,15 @@ class Runner:
         return {"id": cid, "kind": kind, "sheet_ast": sheet, "doc": doc, "sheet": main, "files": files,
                 "source": xsltgen.doc_xml(doc), "tree": tree, "flags": flags, "trace": trace, "it": it, "expect": expect}
 
+    def repaired(self, flag):
+        fs = REPAIR_FACTS.get(flag)
+        return bool(fs) and all(self.facts.get(f) for f in fs)
+
     def known_classes(self, c):
         """classes of LISTED known findings the program falls in (a class whose finding has been repaired and
         removed from the list no longer excuses a disagreement)"""
-        ks = [FLAG_CLASS[f] for f in FLAG_CLASS if c["flags"].get(f)]
-        if passes_global_name(c["sheet_ast"]):
+        ks = [FLAG_CLASS[f] for f in FLAG_CLASS if c["flags"].get(f) and not self.repaired(f)]
+        if passes_global_name(c["sheet_ast"]) and not self.repaired("#with-param-name-equals-global-name"):
             ks.append("K-C01-1")
         return [k for k in ks if k in self.listed or (k in FOREIGN and k in self.foreign_listed)]
 
@@ -399,6 +414,7 @@ def run(ctx):
         return ctx.finish(LEVEL)
     known = {k["key"]: k for k in ctx.known.for_property("C01")}
     # instruction-layer facts that shape the event script given to the extracted machine
+    facts = {}
     try:
         import sys
         sys.path.insert(0, os.path.join(core.VERIF, "translator"))
@@ -406,13 +422,22 @@ def run(ctx):
         facts = srcfacts.GENERATORS["GenXslt"]()[1]
         xsltref.EMIT["copy-of"] = not facts["copy_of_skips_empty_string"]
         xsltref.EMIT["value-of-dot"] = not facts["value_of_dot_skips_empty_string"]
-        ctx.notes["source_variant"] = {k: facts[k] for k in ("copy_of_skips_empty_string", "value_of_dot_skips_empty_string",
-                                                             "params_reset_when_template_frame_popped")}
+        ctx.notes["source_variant"] = {k: facts[k] for k in (
+            "copy_of_skips_empty_string", "value_of_dot_skips_empty_string", "params_reset_when_template_frame_popped",
+            "initial_template_has_root_node_list", "lazy_global_has_own_node_list", "lazy_global_resets_copy_text_nodes_only")}
     except Exception as e:     # AnchorError is already reported by ctx.prove
         ctx.notes["source_variant"] = "unavailable: %s" % e
     runner = Runner(ctx, model)
-    # classes whose finding is no longer listed (repaired) are generated on purpose
-    xsltgen.OPEN_CLASSES = set(["K-C01-1"]) - runner.listed
+    runner.facts = facts
+    # classes whose finding is repaired in the source or no longer listed are generated on purpose
+    xsltgen.OPEN_CLASSES = set()
+    if runner.repaired("#with-param-name-equals-global-name") or "K-C01-1" not in runner.listed:
+        xsltgen.OPEN_CLASSES.add("K-C01-1")
+    if runner.repaired("initial_position") or "K-C01-2" not in runner.listed:
+        xsltgen.OPEN_CLASSES.add("K-C01-2a")
+    if runner.repaired("global_position") or "K-C01-2" not in runner.listed:
+        xsltgen.OPEN_CLASSES.add("K-C01-2b")
+    ctx.notes["opened_classes"] = sorted(xsltgen.OPEN_CLASSES)
 
     cases = corpus_cases(runner)
     expect = {c["id"]: c["expect"] for c in cases if c["expect"]}
